@@ -1168,9 +1168,12 @@ package bigbuff
 //@   requires cfg : config != nil && config.this != nil && rt_kind(config.this) == 19
 //@   nopanic always : true
 //@   loop typesInOut>0 invariant outs : len(r) == n && n == rt_numout(config.this) && all(j, 0, rangeindex + 1, r[j] == rt_out(config.this, j) && r[j] != nil)
-//@   loop 0 invariant validated : len(out__0) == rt_numout(config.this) && elem != nil && all(j, 0, len(out__0), out__0[j] != nil) && all(j, 0, rangeindex + 1, out__0[j] == elem)
+//@   loop 0 invariant validated : len(out__0) == rt_numout(config.this) && elem != nil && all(j, 0, len(out__0), out__0[j] != nil) && all(j, 0, rangeindex + 1, out__0[j] == elem && rt_assignable(rt_out(config.this, j), elem)) && all(j, rangeindex + 1, len(out__0), out__0[j] == rt_out(config.this, j))
 //@   ensures failed : ret != nil ==> config.results == old(config.results) && config.args == old(config.args)
 //@   ensures installed : ret == nil ==> config.results != nil && config.args == old(config.args)
+//@   # a thunk is installed only for a non-nil pointer to a slice whose element type every result is assignable to
+//@   ensures target : ret == nil ==> rt_kind(rt_of(target)) == 22 && !rv_isnil(rv_of(target)) && rt_kind(rt_elem(rt_of(target))) == 23
+//@   ensures typed : ret == nil ==> all(j, 0, rt_numout(config.this), rt_assignable(rt_out(config.this, j), rt_elem(rt_elem(rt_of(target)))))
 //@   # the result thunk takes one parameter of the slice's element type per result
 //@   at-call reflect.FuncOf#0 shape : len(arg1) == 0 && !arg2 && len(arg0) == rt_numout(config.this) && all(j, 0, len(arg0), arg0[j] == elem)
 
@@ -1178,6 +1181,9 @@ package bigbuff
 //@   props C19
 //@   modular
 //@   maypanic
+//@   requires target : rv_valid(value) && rt_kind(rv_type(value)) == 22 && !rv_isnil(value) && rt_kind(rt_elem(rv_type(value))) == 23
+//@   # calling convention of reflect.MakeFunc (A-LIB): one valid Value of the declared parameter type per parameter
+//@   requires typed : all(j, 0, len(args), rv_valid(args[j]) && rt_assignable(rv_type(args[j]), rt_elem(rt_elem(rv_type(value)))))
 //@   # every result is appended, in order, in one step; nothing is written when there are no results
 //@   at-call reflect.Append#0 all : len(arg1) == len(args) && len(args) != 0 && all(j, 0, len(args), arg1[j] == args[j])
 //@   ensures appended : len(args) != 0 ==> icalls("reflect.Append") == 1 && icalls("rvset") == 1
